@@ -291,6 +291,10 @@ def handle (st : DState) (op : String) (args : List SX) : DState × SX :=
     (st, match combineCore (decOp op) uniq.getBool (ts.getList.map decTree) with
       | some e => encTree e
       | none => .tag "none")
+  | "equivtext", [table, a, b] =>
+    (st, match equivText c (decTable table) a.getStr b.getStr with | some r => SX.ofBool r | none => .tag "raises")
+  | "containstext", [table, a, b] =>
+    (st, match containsText c (decTable table) a.getStr b.getStr with | some r => SX.ofBool r | none => .tag "raises")
   | "equiv", [a, b] => (st, SX.ofBool (equivE (decTree a) (decTree b)))
   | "contains", [a, b] => (st, SX.ofBool (containsTop (decTree a) (decTree b)))
   | "symbols", [t, uniq, dec] => (st, encAtoms (licenseSymbols (decTree t) uniq.getBool dec.getBool))
